@@ -86,9 +86,12 @@ func (i *postingsIterator) Advance(number uint64) (segment.Posting, error) {
 		if err != nil {
 			return nil, err
 		}
-		// close the current term field reader before replacing it with a new one
-		_ = i.Close()
-		*i = *(i2.(*postingsIterator))
+		// take over the state of the new reader and close the object that now holds
+		// the old state: closing i itself would put a reader that stays in use on the
+		// snapshot's recycle list (and a second time when its searcher is closed)
+		fresh := i2.(*postingsIterator)
+		*i, *fresh = *fresh, *i
+		_ = fresh.Close()
 	}
 	segIndex, ldocNum := i.snapshot.segmentIndexAndLocalDocNumFromGlobal(number)
 	if segIndex >= len(i.snapshot.segment) {
